@@ -164,9 +164,12 @@ def do_scan_inproc(ex, idx, op):
     w = ex.world
     box = {}
 
+    use_live = bool(op.get("live"))
+
     def fn():
-        from codelimit.common.Scanner import scan_path
-        box["cb"] = scan_path(Path(w.root))
+        from codelimit.common import Scanner
+        # library use: scan_path, or scan_codebase (the same walk plus the live totals display)
+        box["cb"] = Scanner.scan_codebase(Path(w.root)) if use_live else Scanner.scan_path(Path(w.root))
     obs = w.run_process(fn, op["nonce"], w.base, set_policy=ex.set_policy, walk_policy=ex.walk_policy,
                         new_process=False)
     if obs["outcome"] != "ok":
@@ -185,6 +188,11 @@ def do_scan_inproc(ex, idx, op):
                              % (ex.cover["proc_ops"].get("scan_inproc", 0) + 1, len(got_files), len(want),
                                 sorted(got_files - set(want)), sorted(set(want) - got_files)), idx))
         ex.probe("c06_inproc_fileset_checked")
+    if use_live:
+        tot = {k: {"files": v.files, "functions": v.functions, "lines_of_code": v.loc,
+                   "hard_to_maintain": v.hard_to_maintain, "unmaintainable": v.unmaintainable}
+               for k, v in box["cb"].totals.items()}
+        common.grand_totals_c07(ex, idx, obs, tot, "in-process scan_codebase #%d of this run" % (ex.cover["proc_ops"].get("scan_inproc", 0) + 1))
     res = {}
     for path, e in box["cb"].files.items():
         got = [[m.unit_name, m.start.line, m.start.column, m.end.line, m.end.column, m.value] for m in e.measurements()]
@@ -239,7 +247,7 @@ def gen(i, R, tier, force_mode=None):
             ops.append({"op": "analyze", "lexer": lexer, "content": cid, "nonce": G.nonce(rng)})
             r2 = rng.random()
             if r2 < 0.05:
-                ops.append({"op": "scan_inproc", "nonce": G.nonce(rng)})
+                ops.append({"op": "scan_inproc", "nonce": G.nonce(rng), "live": rng.random() < 0.5})
             elif r2 < 0.09:
                 # a scan of the same tree under another root .gitignore, then without it:
                 # nothing of the first scan's configuration may survive into the second
@@ -253,7 +261,8 @@ def gen(i, R, tier, force_mode=None):
                 p = rng.choice(sorted(placed))
                 ops.append({"op": "delete", "path": p})
                 ops.append({"op": "scan_inproc", "nonce": G.nonce(rng)})
-        ops.append({"op": "scan_inproc", "nonce": G.nonce(rng)})
+        ops.append({"op": "scan_inproc", "nonce": G.nonce(rng), "live": True})
+        ops.append({"op": "scan_inproc", "nonce": G.nonce(rng), "live": True})
     else:
         ops.append({"op": "set_git", "scenario": rng.choice(("none", "ssh", "https_git", "not_a_repo"))})
         if rng.random() < 0.4:
